@@ -23,7 +23,7 @@ ASSUMPTIONS = [
     "sorted-dict and cursor cut-point models in this file (DESIGN.md Appendix B5)",
     "structural walk reads BTree.root / node.elts / node.children as an optional witness; the deciding oracle is the model at the public API",
 ]
-REQUIRED = ["mon.drill_released_generations", "mon.drill_full_shared_root", "mon.drill_delete_all", "mon.drill_cursor_on_falsy_key", "mon.delete_exact_refused", "mon.step", "mon.tree_equals_model", "mon.structure_walk", "mon.frozen_refuses", "mon.frozen_fingerprint", "mon.cursor_op", "mon.exhaustive_orders"]
+REQUIRED = ["mon.drill_cursor_rewound_and_walked", "mon.drill_released_generations", "mon.drill_full_shared_root", "mon.drill_delete_all", "mon.drill_cursor_on_falsy_key", "mon.delete_exact_refused", "mon.step", "mon.tree_equals_model", "mon.structure_walk", "mon.frozen_refuses", "mon.frozen_fingerprint", "mon.cursor_op", "mon.exhaustive_orders"]
 BUDGET = {"quick": 40.0, "thorough": 420.0}
 
 
@@ -607,6 +607,36 @@ def drills(ctx, rng):
         while len(kept) > 2:
             del kept[0]  # the only reference: the tree object goes, its nodes stay shared
         del newest, lv
+    # (e) one cursor object used again: parked somewhere deep in a tree of several levels, sent back to an end with seek_first /
+    # seek_last, and walked across the whole tree with no mutation in between: every key once, then None
+    ctx.count("mon.drill_cursor_rewound_and_walked")
+    case = {"kind": "drill", "drill": "cursor-rewound", "t": t, "tree": kind}
+    lv = Live(mk(), {}, t, kind)
+    nkeys = rng.choice((30, 60, 200))
+    for k in rng.sample(range(1000), nkeys):
+        put(lv, k, k)
+    allk = sorted(lv.model)
+    with lv.tree.cursor() as c:
+        for round_ in range(rng.randint(1, 3)):
+            c.seek(rng.choice(allk), rng.random() < 0.5)
+            for _ in range(rng.randint(0, 7)):
+                (c.next if rng.random() < 0.5 else c.prev)()
+            forward = rng.random() < 0.5
+            (c.seek_first if forward else c.seek_last)()
+            seen_keys = []
+            for _ in range(nkeys + 5):
+                e = c.next() if forward else c.prev()
+                if e is None:
+                    break
+                seen_keys.append(e.key())
+            want_keys = allk if forward else allk[::-1]
+            if seen_keys != want_keys:
+                ctx.violation(f"cursor-walk-after-rewind-differs:{tag}:{'seek_first' if forward else 'seek_last'}", f"{len(seen_keys)} keys returned for {nkeys} in the tree; first difference at {next((i for i, (a, b) in enumerate(zip(seen_keys, want_keys)) if a != b), min(len(seen_keys), len(want_keys)))}", case)
+                return
+            again = c.next() if forward else c.prev()
+            if again is not None:
+                ctx.violation(f"cursor-walk-after-rewind-differs:{tag}:past-the-end", f"returned {again.key()} after None", case)
+                return
     # (c) a cursor standing on a key that is falsy (0, the empty name) when the tree changes under it
     ctx.count("mon.drill_cursor_on_falsy_key")
     case = {"kind": "drill", "drill": "cursor-on-falsy-key", "t": t, "tree": kind}
